@@ -120,6 +120,7 @@ class Stats:
     def __init__(self):
         self.evaluations = 0
         self.nontrivial = set()
+        self.extra_nontrivial = 0   # distinct-by-construction non-trivial cases of enumerated ranges
         self.classes = {}
         self.excluded_known = {}
         self.inconclusive = 0
@@ -160,6 +161,7 @@ class Stats:
     def merge(self, other: "Stats") -> None:
         self.evaluations += other.evaluations
         self.nontrivial |= other.nontrivial
+        self.extra_nontrivial += other.extra_nontrivial
         for k, v in other.classes.items():
             self.classes[k] = self.classes.get(k, 0) + v
         for k, v in other.excluded_known.items():
@@ -431,7 +433,7 @@ def main(check_name: str, argv) -> int:
     req = getattr(check, "REQUIRED_CLASSES", {})
     if callable(req):
         req = req(tier)
-    if not total.errors and not ns.unit:
+    if not total.errors and not ns.unit and not total.violations:
         for label, frac in req.items():
             got = total.classes.get(label, 0) / max(1, total.evaluations)
             if got < frac:
@@ -455,7 +457,7 @@ def main(check_name: str, argv) -> int:
         samples = samples[:2] + [samples[len(samples) // 2]] + samples[-2:]
     coverage = dict(
         evaluations=total.evaluations,
-        distinct_nontrivial=len(total.nontrivial),
+        distinct_nontrivial=len(total.nontrivial) + total.extra_nontrivial,
         rule=check.RULE,
         samples=samples,
         classes=dict(sorted(total.classes.items())),
@@ -478,7 +480,7 @@ def main(check_name: str, argv) -> int:
         wall_s=round(wall, 2), violations=len(seen),
         repo_src=REPO_SRC, technique=getattr(check, "TECHNIQUE", ""),
     )
-    if not ns.unit:
+    if not ns.unit and not os.environ.get("VERIF_NO_EVIDENCE"):
         os.makedirs(os.path.join(VERIF, "evidence"), exist_ok=True)
         write_json(os.path.join(VERIF, "evidence", "%s.json" % check.ID), evidence)
     for l in known_lines:
@@ -486,7 +488,7 @@ def main(check_name: str, argv) -> int:
     for l in out_lines:
         print(l)
     print("%s %s seed=%d: %d cases, %d distinct non-trivial, %d excluded-known, %d inconclusive, %d violation(s), %.1fs" % (
-        check.ID, tier, seed, total.evaluations, len(total.nontrivial),
+        check.ID, tier, seed, total.evaluations, len(total.nontrivial) + total.extra_nontrivial,
         sum(total.excluded_known.values()), total.inconclusive, len(seen), wall))
     return rc
 
